@@ -392,7 +392,7 @@ def spec() -> Spec:
         generate=generate,
         extract=extract,
         nontrivial=nontrivial,
-        budget={"quick": 5000, "thorough": 60000},
+        budget={"quick": 2000, "thorough": 40000},
         rule="random histories of init/reg/add/adv/sweep/buckets/closest against the real KademliaTable under the virtual clock: "
              "random, all-zero and all-one local ids; contacts aimed at chosen bucket indices (0,1,7,8,...,254,255 and random: ids "
              "sharing 0..255-bit prefixes with the local id); 15/16/17/20/33 ids in one bucket; refreshes with new address/TTL "
